@@ -35,6 +35,7 @@ def run(ctx):
         ctx.count("functions_analysed", len(crate.bodies))
         ctx.guard("explicit-first" + tag, explicit_first, ctx, crate, crs, tag)
         ctx.guard("first-candidate" + tag, c07.first_candidate, ctx, crate, crs, tag)
+        ctx.guard("order-preserved" + tag, c07.order_preserved, ctx, crate, crs, tag)   # the lists decide() picks from are complete and in order
         ctx.guard("root-true-decisions" + tag, c05.true_decisions, ctx, crate, crs, tag)
 
 
